@@ -25,7 +25,7 @@ RULE = ("(a) exhaustive: all 11x11 ordered pairs of energy units x 15 accessor p
         "optionally caught in the middle); (c) ~40 public builder/calculator entry points called inside each of several unit contexts at depth 1 and 2 "
         "under the frame-level leak detector; (d) energy-valued call arguments: the same physical coupling cut-off handed to Hamiltonian.remove_cutoff_coupling / "
         "subtract_cutoff_coupling / diagonalize(coupling_cutoff=) / get_RelaxationTensor('cRF', coupling_cutoff=) under each unit must leave the same stored "
-        "Hamiltonian, remainder coupling and tensor; (e) the repository's own unit tests (qrv/stable_tests.json) run in-process as a workload for the leak "
+        "Hamiltonian, remainder coupling and tensor; (d') Hamiltonian builders of molecules with 1-2 modes called (first, recalculating, through an aggregate) inside 7 unit contexts vs outside; (e) the repository's own unit tests (qrv/stable_tests.json) run in-process as a workload for the leak "
         "detector: every library frame they reach must return with the units it was entered with (a failing test is not a verdict). distinct = (accessor, u1, u2) / (program shape) / (entry point, context); non-trivial iff u1 != u2, "
         "program depth >= 2, or the entry point was entered under a non-internal unit.")
 ASSUMPTIONS = ["Manager.convert_frequency_* has no context that activates it and no managed accessor: not claimed",
